@@ -105,6 +105,11 @@ def plan(tier, seed):
     doc_jobs += soup
     fam_cache = dict(name='verbatim_through_shared_module_cache', module=H, fn='cached_pair', jobs=[{}], timeout=900, vacuity=1,
                      mutants=[{'name': 'digest_folds_line_endings', 'cfg': {}}])
+    fam_rw = dict(name='one_template_object_across_document_kinds', module=H, fn='rewritten_kinds', jobs=[{}], timeout=900, vacuity=1,
+                  mutants=[{'name': 'content_type_sticks', 'cfg': {}}])
+    # attributes that share one name (or one namespace and name): nothing after them is lost
+    doc_jobs += [['<a b="1" b="2" c="3"', 0, '>t</a>'], ['<html lang="en" xml:lang="en" dir="ltr"', 0, '>t</html>'],
+                 ['<a b="1" B="2" b=\'3\' ', 0, 'c>t</a>']]
     fams = [
         dict(name='iter_xml_tiles', module=H, fn='tok_tiles', jobs=[{'shape': s} for s in tok],
              timeout=to_tok, vacuity=1,
@@ -146,7 +151,7 @@ def plan(tier, seed):
                 'length <= %d over all 1,114,112 code points. tag dissection / front end + emitters: %d + %d '
                 'enumerated shapes (tag/document skeletons with %s symbolic code point(s) at the gaps), all '
                 'code points per symbolic position; attribute and element *names* are concrete in the '
-                'front-end family (they become dict keys). newline chain: <= %d symbolic characters; every sequence of 3 statement-free documents from a pool of 6 (XML documents differing only in their line endings, HTML documents) compiled through one on-disk module cache renders each as written; a namespace declaration (3 template-language URIs, a foreign one) on an empty element followed by siblings that use the prefix as element / attribute prefix: only the declaration of a language namespace is dropped; 5 documents with data-* attributes that spell no statement (xml, xmlns and declared foreign prefixes) render verbatim with enable_data_attributes on and off. '
+                'front-end family (they become dict keys). newline chain: <= %d symbolic characters; every sequence of 3 statement-free documents from a pool of 6 (XML documents differing only in their line endings, HTML documents) compiled through one on-disk module cache renders each as written; every sequence of 3 documents from a pool of 8 given to one template object (write(), or an auto-reloading file template) renders the current one; a namespace declaration (3 template-language URIs, a foreign one) on an empty element followed by siblings that use the prefix as element / attribute prefix: only the declaration of a language namespace is dropped; 5 documents with data-* attributes that spell no statement (xml, xmlns and declared foreign prefixes) render verbatim with enable_data_attributes on and off. '
                 'Outside: longer symbolic stretches, whole-pipeline compile()+render of a symbolic document, '
                 'element nesting beyond the skeletons.' % (
                     3 if quick else 5, len(tag_jobs), len(doc_jobs), '1' if quick else '1-2',
@@ -160,7 +165,7 @@ def plan(tier, seed):
             'a rejection (TemplateError, undefined namespace prefix, undissectable tag token) is not a C03 '
             'violation: the statement is conditional on the document compiling',
         ],
-        families=fams + [fam_cache, dict(name='foreign_data_attributes_under_option', module=H, fn='data_option_verbatim', jobs=[{}],
+        families=fams + [fam_cache, fam_rw, dict(name='foreign_data_attributes_under_option', module=H, fn='data_option_verbatim', jobs=[{}],
                                        timeout=600, vacuity=1, mutants=[{'name': 'data_conversion_any_bound_prefix', 'cfg': {}}]), dict(name='empty_tag_namespace_scope', module=H, fn='empty_tag_scope', jobs=[{}],
                                        timeout=600, vacuity=1, mutants=[{'name': 'empty_tag_shares_scope', 'cfg': {}}])],
         extra=z_queries,
